@@ -72,14 +72,9 @@ CLAIMED = {
         design='6/C16'),
 
     'C03': dict(
-        text=("Lean theorems (HcipyVerif.Fraunhofer): the lens propagator's result equals 1/(i*lambda*f) times the weighted Fourier sum on "
-              "the focal grid scaled by 2*pi/(lambda*f) (any dimension, tensor component, wavelength-dependent focal length), power "
-              "conservation (also Stokes power of Jones-matrix wavefronts) and backward∘forward = id on the full conjugate grid with the weight "
-              "change proved, wavelength/Stokes carried. The Fourier transform enters through named hypotheses (EvaluatesFourierSum, ParsevalOn, "
-              "InverseOn, EvaluatesAdjointSum) which are DISCHARGED in Lean for the FFT pipeline model of C01/C02 (Lemmas/FourierLink.lean), giving hypothesis-free corollaries (*_fft, *_auto); also setter/session histories on one propagator. Tie: model reproduces both focal-grid constructors and impulse responses in exact "
-              "turns; oracle compares the real FraunhoferPropagator with the direct weighted sum at every focal point."),
-        note=TRUST + " For the matrix/naive/zoom transforms the Fourier facts remain hypotheses (C01 proves them for those models separately); rounding is bounded only by the 1e-9 tolerance.",
-        technique="Lean 4 proof (algebra over ℂ, abstract Fourier hypotheses) + correspondence and direct-sum oracle on the real propagator",
+        text=("Lean theorems (HcipyVerif.Fraunhofer) about the very functions the native driver executes — lensForward/lensBackward (selection by C01's `choose detectFix` → FFT pipeline fastForward2 on the reconstructed axis configuration, or MFT mftForward on X/(λf) → norm factor 1/(iλf)). For every method the modelled make_fourier_transform can return from sound inputs, every wavelength and focal length, and both shift settings, the result equals 1/(iλf)·Σ E w exp(−2πi x·u/(λf)). Backward equals the adjoint integral. On a full conjugate grid power is conserved (also Stokes power of Jones-matrix wavefronts) and backward∘forward = id. The `_of_model` forms take their hypotheses from the executable ℚ classification (classify, lensMethod, proved total), which is compared with the running code on every run. make_focal_grid_from_pupil_grid with q ≥ 1 is proved a full conjugate with q_eff samples per λf/D, and both constructors contain the origin. Unbounded focal_length setter histories are covered, and the executable impulse response is proved equal to the pipeline on unit impulses. The abstract d-dimensional, tensor-component theorems and the propagator-object theorems (_fft/_mft/_sel) are kept and connected to the pipeline by bridge lemmas. Tie: model reproduces both focal-grid constructors, the method selection and impulse responses in exact turns; oracle compares the real FraunhoferPropagator with the direct weighted sum at every focal point."),
+        note=TRUST + " No Fourier hypothesis remains for regular or separated Cartesian focal grids (FFT and MFT). For unstructured and polar focal grids the code is the defining matrix and only the direct-sum oracle applies. The planner's float comparison is an oracle input (any value). Power is proved in 2-D only. The harness checks that wavelength and Stokes vector are carried; the theorem for that clause is definitional and named accordingly (meta_carried_by_construction). Rounding is bounded only by the 1e-9 tolerance.",
+        technique='Lean 4 proof about scalar-polymorphic executable models (run in exact Rat arithmetic by the driver, proved over ℝ/ℂ) + impulse-level correspondence of the selected pipeline with the real FraunhoferPropagator.forward/backward + direct-sum and adjoint-sum oracle',
         design='6/C03'),
     'C04': dict(
         text=("Lean theorems (HcipyVerif.NearField) for the FourierFilter operator P†F⁻¹DFP over any FourierPair: linearity, backward = exact adjoint, "
@@ -90,13 +85,9 @@ CLAIMED = {
         technique="Lean 4 proof (finite-dimensional linear algebra over ℂ) + correspondence and numeric oracle on real Fresnel/angular-spectrum propagators",
         design='6/C04'),
     'C05': dict(
-        text=("Lean theorems (HcipyVerif.Cache) about the model of AgnosticOpticalElement's instance cache as repaired: soundness and accounting invariants for every "
-              "reachable state, no KeyError from eviction, FIFO eviction of the oldest instance, and transparency at full strength — every request in every history "
-              "(forward/backward/both grids, beyond any cache size, clear_cache and setters interleaved) returns the instance a fresh element would build; setter takes effect; "
-              "Fourier-object memo/scratch-buffer transparency. Old lookup kept with the proved lens-propagator counterexample. Tie: after every step of random histories on all 24 "
-              "agnostic classes the real ordered cache, counters and handed-out instance are compared with the model; oracle compares every result with a freshly built element."),
-        note=TRUST + " Hash collisions of xxhash and the float formula of the wavelength key are not modelled (distinct keys for wavelengths >= 1e-6 apart are exercised). Elements' declared grid/wavelength dependence is assumed truthful (checked by the fresh-element oracle).",
-        technique="Lean 4 proof (invariants by induction over request histories) + state-by-state correspondence with the real cache + fresh-element oracle",
+        text=("Lean theorems about the executable model of AgnosticOpticalElement's instance cache as it is in /repo: soundness and accounting invariants in every reachable state, no KeyError, FIFO eviction, and transparency at full strength for every history (forward/backward/both grids, beyond any cache size, clear_cache, setters). Transparency holds under the explicit hypothesis Truthful (shown necessary by truthful_needed). With instance contents it holds under the explicit hypothesis ObservablyPure (shown necessary by content_hypothesis_needed; discharged for instances owning a memo cell by transparent_results_memo). Fourier-object state is transparent: memo cells, the zoom FFT (a cell owning chirp-z cells) and the FFT scratch buffer (Fft.loadArray). The second cache, inside the exported and deprecated make_agnostic_optical_element, is modelled line by line and proved not transparent (decorator_history_dependent; open finding); its requests without an output grid are transparent (decorator_forward_transparent). Wavelength keys over the reals: wavelengths at least 1e-6 apart never share an instance. The round-0 lookup is kept as documentation in Lemmas/CacheOld.lean and is not counted. Tie: after every step of random histories on all agnostic classes the real ordered cache, counters and handed-out instance are compared with the model; oracle compares every result with a freshly built element."),
+        note=TRUST + " Hash collisions of xxhash are not modelled. The wavelength-key formula is a read-only real-number model, checked against a 60-digit evaluation. make_agnostic_optical_element is history dependent by design (open finding). Elements' declared grid/wavelength dependence is the hypothesis Truthful (checked by the fresh-element oracle).",
+        technique="Lean 4 proof (invariants by induction over request histories) + state-by-state correspondence with the real cache + fresh-element oracle; state-by-state correspondence also for the decorator's private cache, for FourierFilter / ZoomFFT / ChirpZTransform memo state, for the memo cell of cached Fresnel and angular-spectrum instances (stepC), and for the array handed to fftn (Fft.loadArray)",
         design='6/C05'),
     'C06': dict(
         text=("Lean theorems: every term of the linear-operator IR denotes a (conjugate-)linear map by structural induction over any commutative ring with involution; the static effect checker is sound "
@@ -132,10 +123,9 @@ CLAIMED = {
         technique="Lean 4 proof (Nat.sqrt arithmetic, decide +kernel tables, trig identities) + exhaustive-range and exact-value correspondence",
         design='6/C13'),
     'C14': dict(
-        text=("Lean theorems: all four ModeBasis constructors denote one matrix; linear_combination = matvec in every storage form; indexing/slicing/concatenation/append/extend/sparse-dense round trip commute with the dense denotation (result kind, values and errors); least squares recovers coefficients of injective maps (ordered fields and ℂ); "
-              "mirror invariant for every history (assign, in-place edits of current or released arrays, flatten, random, new influence functions): the cached mirror returns what the cache-free spec returns. Tie: exact comparison over Gaussian rationals for random matrices/index expressions and actuator histories on the three mirror classes."),
-        note=TRUST + " The executable Gauss–Jordan lstsq is not proved to minimise (the driver re-checks the normal equations exactly); sliceIdx is tied to CPython's slice.indices by ~18k random slices per thorough run.",
-        technique="Lean 4 proof (list/matrix algebra, cache invariant by induction over histories) + exact correspondence",
+        text=('Every input form of ModeBasis (ndarray, CSC/CSR/COO matrix, list/tuple of fields or sparse rows) goes through one modelled dispatch and denotes one matrix. Bases denoting one matrix agree in linear combinations, every index expression, concatenation, sparsify/densify and least-squares coefficients. The executable least-squares model is proved sound and complete: for independent modes coefficients_for(A·c) = c, and any answer for A·c is c (ordered fields and complex). For every history of assignments, re-assignments, in-place edits of any actuator array or any surface array ever handed out, flatten, random and new influence functions, surface and opd (and any read-out through surface) equal IF·current actuators (the aliasing read of the code before fix D22f is refuted by a proved counterexample). Tie: exact comparison over Gaussian rationals for random matrices/index expressions and actuator histories on the three mirror classes; the driver runs the cache-free specification in lockstep.'),
+        note=TRUST + " phase_for/forward/backward are numeric oracle only. coefficients_for is compared numerically for cond <= 1e3; dependent-mode cases check the model's `err rank` against NumPy rank. sliceIdx is tied to CPython's slice.indices by random slices plus a window lemma, not proved equal in general.",
+        technique='Lean 4 theorems about the executed model (invariant with an alias-freedom clause by induction over histories, Gauss-Jordan correctness by row-operation invariants, Gram positivity) + exact correspondence; the harness describes Python objects, keeps array handles, and edits actuators and returned surfaces in place',
         design='6/C14'),
     'C17': dict(
         text=("Lean theorems over any field, every history/shape/subsampling: read-out = sum over integrations since the last read-out of power·dt·weight pixel by pixel (empty sum = zero image), read-out resets, returned images are values, noisy detector with noise off = noiseless, binning conserves counts, image on the detector grid. "
